@@ -301,6 +301,8 @@ class Gen:
             desc = rng.random() < 0.4
             if rng.random() < 0.25 and c.ty == INT:
                 e = ExprGen(rng, frame, depth=1).gen(INT)
+                if e[0].startswith("(-"):      # `sort {-x}` means descending in PRQL: keep negation out of key expressions
+                    continue
                 ks.append(("-" if desc else "") + e[0])
                 sx.append(f"( {'desc' if desc else 'asc'} {e[1]} )")
             else:
